@@ -65,7 +65,7 @@ func genCase(t *rapid.T) Case {
 		conn := rapid.IntRange(0, c.Conns-1).Draw(t, "conn")
 		k := rapid.SampledFrom(pool).Draw(t, "key")
 		var cmd kit.Cmd
-		switch gen.Weighted(t, "op", []int{8, 6, 8, 2, 2, 2, 2, 1}) {
+		switch gen.Weighted(t, "op", []int{8, 6, 8, 2, 2, 2, 2, 1, 3, 3, 2, 2}) {
 		case 0:
 			var arg string
 			switch rapid.IntRange(0, 5).Draw(t, "selkind") {
@@ -95,8 +95,20 @@ func genCase(t *rapid.T) Case {
 			cmd = kit.MkCmd("keys", "*")
 		case 6:
 			cmd = kit.MkCmd("lpush", k+"-l", fmt.Sprintf("e%d", i))
-		default:
+		case 7:
 			cmd = kit.MkCmd("llen", k+"-l")
+		// deadlines belong to the key of one database too (far away: no step depends on time passing)
+		case 8:
+			cmd = kit.MkCmd("expire", k, gen.Pick(t, "sec", "100000", "200000"), gen.Pick(t, "eopt", "", "", "nx", "xx"))
+			if string(cmd[3]) == "" {
+				cmd = cmd[:3]
+			}
+		case 9:
+			cmd = kit.MkCmd("ttl", k)
+		case 10:
+			cmd = kit.MkCmd("persist", k)
+		default:
+			cmd = kit.MkCmd("set", k, fmt.Sprintf("c%d-step%d", conn, i), "ex", "300000")
 		}
 		c.Steps = append(c.Steps, Step{Conn: conn, Cmd: cmd})
 	}
